@@ -4,12 +4,13 @@ CLAIMS["C17"] = dict(
               "the synchronous Gauge) against a per-reader reference model (bounded depth, canonical-state pruning on the private maps, deterministic virtual clock that never ties)",
     text="Observable counter, up-down counter and gauge (int64 and double) with 1..3 pull readers of mixed temporality and three callbacks that pairwise share the function or the "
          "state pointer: every history of AddCallback / RemoveCallback / destroy-instrument / script(callback: step, decrease (not for counters), attribute set appears / disappears) / "
-         "Collect(reader); quick = depth 5 after AddCallback(cb0) over 8 reader configurations; thorough = depth 5 with the richer script alphabet over all 14 ordered reader "
-         "configurations and both start states, depth 6 over the 8 representatives, depth 8 with a slim alphabet (two callbacks, at most two readers). Per Collect: every registered "
+         "Collect(reader); quick = depth 5 after AddCallback(cb0) over 6 reader configurations (D, C, DD, DC, DDC, DCC); thorough = depth 5 with the richer script alphabet over all 14 ordered reader "
+         "configurations and both start states, depth 6 over the 6 representatives, depth 7 with a slim alphabet (two callbacks, at most two readers). Per Collect: every registered "
          "callback invoked exactly once, no other callback invoked (removed / instrument destroyed); for every attribute set observed by the collection a cumulative reader gets the "
          "reported total, a delta reader the total minus what that reader had been given, a gauge the observed value; points for attribute sets not observed by the collection must, "
          "if present, carry the latest observation. Second harness (SDK rebuilt with OPENTELEMETRY_ABI_VERSION_NO=2): synchronous Gauge<int64_t>/Gauge<double>, every history of "
-         "Record(value, attrs) / Collect(reader), depth 5 (quick) / 6 (thorough): every point is the most recently recorded value and a value recorded since the reader's previous "
-         "collection is reported. The alphabet never registers the same (callback, state) pair twice and never lets two callbacks report the same attribute set in one collection. "
-         "Equal clock readings are not explored (the interposed clock never ties).",
+         "Record(value, attrs) / Collect(reader), depth 4 (quick) / 5 over all 14 reader configurations and 6 over those with at most two readers (thorough): every point is the most recently "
+         "recorded value and a value recorded since the reader's previous collection is reported. The alphabet never registers the same (callback, state) pair twice and never lets two "
+         "callbacks report the same attribute set in one collection. The default clock never ties; a separate sub-run of both harnesses (gauges only, depth 4 quick / 5 thorough) lets the "
+         "clock stand still during every operation and lets at most two clock-reading operations per history happen without clock progress; its findings carry the prefix C17:clock-tie.",
     note=SEQ_NOTE)
